@@ -119,7 +119,10 @@ def run(chk):
            ("caller-mode-operands-alternative", "(.b[3] // 1), ."), (None, "(.b[3] != 1), ."), (None, "(.b[3] + 1), ."), (None, "(.c.d * {\"k\": 1}), ."),
            (None, "(.b[3] - 1), ."), (None, "(.b[3] % 2), ."), (None, "(.b[3] and true), ."), (None, "(.b[3] or .c.d), ."), (None, "(.b | has(3)), ."),
            (None, "select(.b[3] == null), ."), (None, "(.l | sort_by(.zq.zr)), ."), (None, "(.l | group_by(.[3])), ."), (None, "(.l | unique_by(.zq)), ."),
-           (None, "(.l | any_c(.zq == 1)), ."), (None, "(.l | all_c(.[2] == 1)), ."), (None, "([.b] | contains([.c.d])), .")]
+           (None, "(.l | any_c(.zq == 1)), ."), (None, "(.l | all_c(.[2] == 1)), ."), (None, "([.b] | contains([.c.d])), ."),
+           # bindings only read, in both spellings
+           (None, ".b[3] as $x | ."), (None, ".b[3] ref $x | ."), (None, ".c.d ref $x | ."), (None, ".zq.zr ref $x | ."), (None, ".l[1][4] ref $x | ."),
+           (None, "(.c.d ref $x | $x) as $y | ."), (None, ".c.d ref $x | .b[2] ref $y | ."), (None, ".c.d.e as $x | .c.f ref $y | .")]
     wdoc = {"b": [1], "c": {}, "l": [{"k": 1}, [1]]}
     wout = evalcheck.impl_eval([(e, wdoc) for _, e in wit])
     for (key, e), b in zip(wit, wout):
@@ -144,7 +147,7 @@ def run(chk):
     pcases = []
     for d in docs:
         for op in (EXTRA_OPS if thorough else EXTRA_OPS[:12] + chk.rng.sample(EXTRA_OPS[12:], 20)):
-            for wrap in ("(%s) as $x | .", "[.. | select(%s)], .", "(.. | %s) as $x | ."):
+            for wrap in ("(%s) as $x | .", "[.. | select(%s)], .", "(.. | %s) as $x | .", "(%s) ref $x | ."):
                 tcases.append(((wrap % op), d))
             pcases.append((("(%s) as $x | [.. | path]" % op), d))
     timpl = evalcheck.impl_eval(tcases)
